@@ -1793,6 +1793,22 @@ def py_builtin(E, name, e):
             r = new_dict(E, kty, vty)
             dict_update(E, r, src)  # a shallow copy: same keys, same values
             return r
+        if len(args) == 1 and not kwargs and isinstance(E.full_ty(args[0]), tuple) and E.full_ty(args[0])[0] == "rec" and not st.spec:
+            # a shallow copy of a record (a dict with constant string keys): same keys present, same values, a new object
+            src = args[0]
+            rt = E.full_ty(src)
+            if E.c.safety:
+                E.oblige("none-attr", src.z != 0, "dict(" + U(e.args[0]) + ")")
+            ref = E.alloc()
+            E.set_kind(ref, E.kind_name(rt))
+            out = V(rt, ref)
+            for k_, ft in rt[1]:
+                key = k_.lstrip("?")
+                nm = E.fld_name(rt, key, ft)
+                st.heap.store(nm, sort_of(ft), ref, E.hread(nm, sort_of(ft), src.z))
+                if k_.startswith("?"):
+                    st.heap.store(f"has.{key}", B, ref, E.hread(f"has.{key}", B, src.z))
+            return out
         raise OutOfSubset("dict(...) with arguments")
     if name == "set":
         if not args:
